@@ -54,10 +54,14 @@ def evalC16 (ins outs : List String) : Verdict :=
           kv? outs "r1", kv? outs "r2", kvNat? outs "tail", kvNat? outs "head", (kv? outs "gone").bind natList?, kvInt? outs "youngestGoneT" with
     | some window, some bt, some lo, some local_, some headT, some maxgap, some sfh, some r1, some r2, some tail, some head, some gone, some ygt =>
       if r1 == "panic" || r2 == "panic" then .prop "c16_no_panic" s!"subjectiveTail window={window} bt={bt}" else
-      if r1 != "ok" || r2 != "ok" then .prop "c16_not_wedged" s!"r1={r1} r2={r2}" else
+      -- with a transient getter failure injected into the first attempt only, that attempt may fail; the retry must not
+      let ff := kvNat? ins "failfirst" == some 1
+      if (r1 != "ok" && !(ff && r1 == "err")) || r2 != "ok" then .prop "c16_not_wedged" s!"r1={r1} r2={r2}" else
+      if ff && sfh != 0 && tail != sfh then .prop "c16_not_wedged" s!"after the retry the tail is {tail}, configured {sfh}" else
       if tail < 1 || tail > head then .prop "c16_tail_bounds" s!"tail={tail} head={head}" else
       -- gap-free: exactly the heights below the new tail are gone
       if gone != List.range' lo (tail - lo) then .prop "c16_gap_free" s!"gone={gone} tail={tail}" else
+      if tail < lo && (kvNat? outs "filled").any (· != lo - tail) then .prop "c16_gap_free" s!"tail moved down to {tail} but only {(kvNat? outs "filled").getD 0} of {lo - tail} heights below {lo} are readable" else
       if head != local_ && head < local_ then .prop "c16_tail_bounds" s!"head moved down to {head}" else
       -- retention: spacing at most the block time ⇒ nothing younger than the window is deleted
       -- (an explicitly configured SyncFromHeight/Hash overrides the window: pruning up to it is the user's choice)
